@@ -23,7 +23,8 @@ type mucCall struct {
 	kind        string // join, rejoin, leave
 	room        string // occupant address
 	timeout     time.Duration
-	plan        int           // 0 ok, 1 error, 2 silence
+	plan        int           // 0 ok, 1 error, 2 silence, 3 an error presence without a usable <error/> payload
+	split       time.Duration // error answers: the presence arrives in two pieces this far apart
 	delay       time.Duration // peer's answer delay
 	others      int           // other occupants' presences before the self-presence
 	err         error
@@ -70,7 +71,7 @@ func runC18(rc *RC) {
 		var pl []*mucCall
 		for _, k := range seq {
 			c := &mucCall{kind: k, room: addr, timeout: []time.Duration{300 * time.Millisecond, 2 * time.Second, 5 * time.Second}[ch.Int("workload", 3)],
-				plan: []int{0, 0, 0, 1, 2}[ch.Int("workload", 5)], delay: []time.Duration{0, 0, 20 * time.Millisecond, 400 * time.Millisecond, 3 * time.Second}[ch.Int("workload", 5)], others: ch.Int("workload", 3)}
+				plan: []int{0, 0, 0, 1, 2, 0, 1, 3}[ch.Int("workload", 8)], split: []time.Duration{0, 0, 10 * time.Millisecond, 400 * time.Millisecond, 6 * time.Second}[ch.Int("workload", 5)], delay: []time.Duration{0, 0, 20 * time.Millisecond, 400 * time.Millisecond, 3 * time.Second}[ch.Int("workload", 5)], others: ch.Int("workload", 3)}
 			pl = append(pl, c)
 		}
 		plans = append(plans, pl)
@@ -82,10 +83,22 @@ func runC18(rc *RC) {
 	rc.Describe("strategy=%s rooms=%d nick=%v invites=%d stray=%d keepctx=%v", strat, nRooms, withNick, nInv, nStray, keepCtx)
 	for _, pl := range plans {
 		for _, c := range pl {
-			rc.Describe("%s %s timeout=%v plan=%d delay=%v others=%d", c.kind, c.room, c.timeout, c.plan, c.delay, c.others)
+			rc.Describe("%s %s timeout=%v plan=%d delay=%v others=%d split=%v", c.kind, c.room, c.timeout, c.plan, c.delay, c.others, c.split)
 		}
 	}
 	rc.CaseKey = fmt.Sprint(nRooms, withNick)
+	// one writer at a time on the peer's side: an element that is sent in pieces is not interleaved with others
+	peerBusy := false
+	acquire := func() {
+		simrt.WaitUntil("peer-free", func() bool { return !peerBusy })
+		peerBusy = true
+	}
+	release := func() { peerBusy = false }
+	pw := func(s string) {
+		acquire()
+		e.PeerWrite(s)
+		release()
+	}
 	// pending[room] = the call the room service will answer next
 	pending := map[string]*mucCall{}
 	type roomAns struct {
@@ -101,6 +114,10 @@ func runC18(rc *RC) {
 		tasks = append(tasks, rc.Spawn(fmt.Sprintf("user%d", i), func() {
 			var chn *muc.Channel
 			for _, c := range pl {
+				// a call starts when the session has consumed everything the server has sent so far: the oracle tells the
+				// presences that can answer a call from older ones by the instant they were written, and an element still in
+				// flight when the call starts (sent before it, handled after it) would be taken for an older one
+				simrt.WaitUntil("input-drained", func() bool { return e.ServeDone || (!peerBusy && e.SUT.ReadIdle()) })
 				ctx, cancel := context.WithTimeout(e.Ctx, c.timeout)
 				if keepCtx {
 					if c.plan == 2 {
@@ -116,8 +133,10 @@ func runC18(rc *RC) {
 					if chn == nil {
 						continue
 					}
+					acquire()
 					answers[c.room] = append(answers[c.room], roomAns{"kick", rc.S.Steps, rc.S.Now(), c})
 					e.PeerWrite(fmt.Sprintf(`<presence from="%s" type="unavailable"><x xmlns="http://jabber.org/protocol/muc#user"><item affiliation="none" role="none"><reason>bye</reason></item><status code="110"/><status code="307"/></x></presence>`, c.room))
+					release()
 					rc.Fire("kick")
 					simrt.Sleep(time.Duration(ch.Range("workload", 1, 30)) * 10 * time.Millisecond)
 					c.done, c.ret, c.retStep = true, rc.S.Now(), rc.S.Steps
@@ -195,6 +214,12 @@ func runC18(rc *RC) {
 						simrt.Sleep(c.delay)
 					}
 					bare := strings.SplitN(to, "/", 2)[0]
+					if c.plan == 2 {
+						rc.Fire("peer-drop")
+						return
+					}
+					acquire()
+					defer release()
 					switch c.plan {
 					case 0:
 						if typ == "unavailable" {
@@ -214,13 +239,32 @@ func runC18(rc *RC) {
 							c.answered = "self"
 						}
 					case 1:
+						if c.split > 0 {
+							// the caller may give up while the serve loop is in the middle of handing the reply over
+							e.PeerWrite(fmt.Sprintf(`<presence from="%s" id="%s" type="error"><error type="auth">`, to, id))
+							simrt.Sleep(c.split)
+							rc.Fire("error-reply-in-pieces")
+						}
 						c.ansAt, c.ansStep = rc.S.Now(), rc.S.Steps
 						answers[to] = append(answers[to], roomAns{"error", rc.S.Steps, rc.S.Now(), c})
-						e.PeerWrite(fmt.Sprintf(`<presence from="%s" id="%s" type="error"><error type="auth"><forbidden xmlns="urn:ietf:params:xml:ns:xmpp-stanzas"/></error></presence>`, to, id))
+						if c.split > 0 {
+							e.PeerWrite(`<forbidden xmlns="urn:ietf:params:xml:ns:xmpp-stanzas"/></error></presence>`)
+						} else {
+							e.PeerWrite(fmt.Sprintf(`<presence from="%s" id="%s" type="error"><error type="auth"><forbidden xmlns="urn:ietf:params:xml:ns:xmpp-stanzas"/></error></presence>`, to, id))
+						}
 						c.answered = "error"
-					default:
-						rc.Fire("peer-drop")
-						return
+					case 3:
+						// an error presence that carries no usable <error/> payload: still the answer to the request
+						c.ansAt, c.ansStep = rc.S.Now(), rc.S.Steps
+						answers[to] = append(answers[to], roomAns{"error", rc.S.Steps, rc.S.Now(), c})
+						body := []string{``, `<x xmlns="http://jabber.org/protocol/muc"/>`, `refused`, `<error/>`}[ch.Int("workload", 4)]
+						if body == "" {
+							e.PeerWrite(fmt.Sprintf(`<presence from="%s" id="%s" type="error"/>`, to, id))
+						} else {
+							e.PeerWrite(fmt.Sprintf(`<presence from="%s" id="%s" type="error">%s</presence>`, to, id, body))
+						}
+						rc.Fire("error-reply-without-payload")
+						c.answered = "error-odd"
 					}
 				})
 			case xml.EndElement:
@@ -240,9 +284,9 @@ func runC18(rc *RC) {
 				`<item affiliation="none" role="participant" jid="@@not a jid@@"/>`,
 				`<item affiliation="none" role="participant"/><status code="many"/>`,
 			}[ch.Int("workload", 5)]
-			e.PeerWrite(fmt.Sprintf(`<presence from="never%d@conf.example.net/x"><x xmlns="http://jabber.org/protocol/muc#user">%s</x></presence>`, i, strayItem))
+			pw(fmt.Sprintf(`<presence from="never%d@conf.example.net/x"><x xmlns="http://jabber.org/protocol/muc#user">%s</x></presence>`, i, strayItem))
 			if ch.Chance("workload", 1, 2) {
-				e.PeerWrite(fmt.Sprintf(`<presence from="never%d@conf.example.net/x" type="unavailable"><x xmlns="http://jabber.org/protocol/muc#user"><item affiliation="none" role="none"/></x></presence>`, i))
+				pw(fmt.Sprintf(`<presence from="never%d@conf.example.net/x" type="unavailable"><x xmlns="http://jabber.org/protocol/muc#user"><item affiliation="none" role="none"/></x></presence>`, i))
 			}
 		}
 		for i := 0; i < nInv; i++ {
@@ -270,10 +314,10 @@ func runC18(rc *RC) {
 			case 1:
 				pre = `<x xmlns="urn:verif:other"/>`
 			}
-			e.PeerWrite(fmt.Sprintf(`<message from="roomx%d@conf.example.net">%s<x xmlns="http://jabber.org/protocol/muc#user">%s</x>%s</message>`, i, pre, body, post))
+			pw(fmt.Sprintf(`<message from="roomx%d@conf.example.net">%s<x xmlns="http://jabber.org/protocol/muc#user">%s</x>%s</message>`, i, pre, body, post))
 			rc.Fire("invite")
 		}
-		e.PeerWrite(`<message from="someone@example.net" type="chat"><body>unrelated</body></message>`)
+		pw(`<message from="someone@example.net" type="chat"><body>unrelated</body></message>`)
 	})
 	allDone := func() bool {
 		for _, t := range tasks {
@@ -290,7 +334,7 @@ func runC18(rc *RC) {
 	cbBefore := len(callbacks)
 	upd := rc.Spawn("room-updates", func() {
 		for _, pl := range plans {
-			e.PeerWrite(fmt.Sprintf(`<presence from="%s"><x xmlns="http://jabber.org/protocol/muc#user"><item affiliation="member" role="moderator"/></x></presence>`, pl[0].room))
+			pw(fmt.Sprintf(`<presence from="%s"><x xmlns="http://jabber.org/protocol/muc#user"><item affiliation="member" role="moderator"/></x></presence>`, pl[0].room))
 		}
 	})
 	rc.S.Run(func() bool { return upd.Done() }, 3000, 5*time.Second)
@@ -349,6 +393,7 @@ func runC18(rc *RC) {
 			deadline := c.start + c.timeout
 			var se stanza.Error
 			isStanzaErr := errors.As(c.err, &se)
+			isCtxErr := errors.Is(c.err, context.DeadlineExceeded) || errors.Is(c.err, context.Canceled)
 			switch c.kind {
 			case "join", "rejoin":
 				rc.Evals["C18.c1"]++
@@ -362,7 +407,7 @@ func runC18(rc *RC) {
 						rc.Failf("C18.c4", "joined-false-after-join", "Joined() is false right after %s %s succeeded", c.kind, c.room)
 					}
 				case isStanzaErr:
-					rc.Check("C18.c2", "join-error-not-from-room:"+sig, c.answered == "error" && c.ansStep <= c.retStep, "%s %s returned stanza error %v but the room had not answered with an error (answer %q)", c.kind, c.room, c.err, c.answered)
+					rc.Check("C18.c2", "join-error-not-from-room:"+sig, strings.HasPrefix(c.answered, "error") && c.ansStep <= c.retStep, "%s %s returned stanza error %v but the room had not answered with an error (answer %q)", c.kind, c.room, c.err, c.answered)
 				default:
 					// context error: legitimate only if nothing usable arrived comfortably before the deadline
 					rc.Evals["C18.c3"]++
@@ -371,7 +416,7 @@ func runC18(rc *RC) {
 					} else if c.answered == "self" && c.ansAt+slack < deadline {
 						rc.Failf("C18.c1", "join-misses-self-presence:"+sig, "%s %s returned %v although the room's self-presence was sent at %v, well before the deadline %v", c.kind, c.room, c.err, c.ansAt, deadline)
 					}
-					if c.answered == "error" && c.ansAt+slack < deadline {
+					if (c.answered == "error" || (c.answered == "error-odd" && isCtxErr)) && c.ansAt+slack < deadline {
 						rc.Failf("C18.c2", "join-misses-error:"+sig, "%s %s returned %v although the room answered with an error at %v, well before the deadline %v", c.kind, c.room, c.err, c.ansAt, deadline)
 					}
 				}
@@ -392,14 +437,14 @@ func runC18(rc *RC) {
 						rc.Failf("C18.c4", "joined-true-after-leave", "Joined() is still true after leave %s succeeded", c.room)
 					}
 				case isStanzaErr:
-					rc.Check("C18.c5", "leave-error-not-from-room", c.answered == "error" && c.ansStep <= c.retStep, "leave %s returned stanza error %v but the room had not answered with an error (answer %q)", c.room, c.err, c.answered)
+					rc.Check("C18.c5", "leave-error-not-from-room", strings.HasPrefix(c.answered, "error") && c.ansStep <= c.retStep, "leave %s returned stanza error %v but the room had not answered with an error (answer %q)", c.room, c.err, c.answered)
 				default:
 					if c.answered == "unavail" && c.ansAt+slack < deadline && crossed(c) {
 						rc.Failf("C18.c5", "leave-misses-unavailable:crossed-by-late-answer", "leave %s returned %v although the room's unavailable presence was sent at %v, well before the deadline %v; the answer to an earlier, timed-out call on this room arrived while this call was in flight", c.room, c.err, c.ansAt, deadline)
 					} else if c.answered == "unavail" && c.ansAt+slack < deadline {
 						rc.Failf("C18.c5", "leave-misses-unavailable", "leave %s returned %v although the room's unavailable presence was sent at %v, well before the deadline %v", c.room, c.err, c.ansAt, deadline)
 					}
-					if c.answered == "error" && c.ansAt+slack < deadline {
+					if (c.answered == "error" || (c.answered == "error-odd" && isCtxErr)) && c.ansAt+slack < deadline {
 						rc.Failf("C18.c5", "leave-misses-error", "leave %s returned %v although the room answered with an error at %v, well before the deadline %v", c.room, c.err, c.ansAt, deadline)
 					}
 				}
@@ -460,7 +505,7 @@ func runC18(rc *RC) {
 			rc.Failf("C18.c7", "invitation-invented", "HandleInvite was called %d times with %q which no invitation carried", n, key)
 		}
 	}
-	rc.Spawn("peer-close", func() { e.PeerWrite(closeTag) })
+	rc.Spawn("peer-close", func() { pw(closeTag) })
 	rc.S.Run(func() bool { return e.ServeDone }, 20000, time.Minute)
 	rc.Check("C18.c8", "serve-stalled", e.ServeDone, "Serve did not return after the peer closed: stuck %v", rc.S.Stuck())
 	stuck := rc.Teardown()
